@@ -132,7 +132,7 @@ impl TransportVisitor for V {
         for step in 0..self.depth {
             co.borrow_mut().spins = 0;
             let avail = sh.delivered.get() - sh.returned.get();
-            let op = choose(16, "console operation");
+            let op = choose(17, "console operation");
             match op {
                 0..=2 => {
                     let ok = device_fill(&co, &sh, FILL_LENS[op]);
@@ -242,6 +242,26 @@ impl TransportVisitor for V {
                     let tx = sh.tx.borrow();
                     if !matches!(r, Ok(Ok(2))) || !matches!(r0, Ok(Ok(0))) || tx.len() != before + 1 || tx.last().unwrap()[..] != data {
                         viol("io-write", format!("Write::write({:?}) -> {:?}, empty write -> {:?}; transmit queue saw {:?}", data, r, r0, &tx[before..]));
+                    }
+                }
+                16 => {
+                    // Large writes: Write::write may accept a prefix but must place exactly the
+                    // bytes it reports on the transmit queue; write_all must place all of them.
+                    let before = sh.tx.borrow().len();
+                    let data: Vec<u8> = (0..4097u32).map(|i| (i.wrapping_mul(7) as u8) ^ (step as u8)).collect();
+                    let r = crate::util::catch(|| embedded_io::Write::write(&mut con, &data));
+                    let sent: Vec<u8> = sh.tx.borrow()[before..].concat();
+                    tag("io-write-large");
+                    match r {
+                        Ok(Ok(n)) if n >= 1 && n <= data.len() && sent[..] == data[..n] => {}
+                        other => viol("io-write", format!("Write::write(4097 bytes) -> {:?}; transmit queue saw {} bytes in {} chains{}", other, sent.len(), sh.tx.borrow().len() - before, if sent.len() <= data.len() && sent[..] == data[..sent.len()] { " (a prefix of the data)" } else { " (not a prefix of the data)" })),
+                    }
+                    let before = sh.tx.borrow().len();
+                    let data: Vec<u8> = (0..8193u32).map(|i| (i.wrapping_mul(13) as u8) ^ (step as u8)).collect();
+                    let r = crate::util::catch(|| embedded_io::Write::write_all(&mut con, &data));
+                    let sent: Vec<u8> = sh.tx.borrow()[before..].concat();
+                    if !matches!(r, Ok(Ok(()))) || sent != data {
+                        viol("io-write", format!("Write::write_all(8193 bytes) -> {:?}; transmit queue saw {} bytes, {}", r, sent.len(), if sent == data { "equal" } else { "different from the data" }));
                     }
                 }
                 15 => {
